@@ -209,12 +209,6 @@ theorem leaf_enum (n T v : String) (h : acceptsV T v = true) : validNode schema 
 
 /-! ### numbers -/
 
-/-- the repr of a finite float: plain, or scientific with a lower-case `e` (what Python prints) -/
-def Fin (x : Num) : Prop := isPlainRepr x.repr = true ∨ (isSciRepr x.repr = true ∧ x.repr.contains 'e' = true)
-
-/-- a finite float greater than zero -/
-def PosNum (x : Num) : Prop := Fin x ∧ isNeg x.repr = false ∧ (mantissa x.repr).any nz = true
-
 theorem Fin.coord {x : Num} (h : Fin x) (p : Nat) : isDecimal (x.coord p) = true :=
   floatToStr_isDecimal _ _ _ _ _ (by rcases h with h | h; exact Or.inl h; exact Or.inr h.2)
 
